@@ -249,11 +249,13 @@ def pattern_check(case):
         data[a:b, :-1] = 0
     elif pat == "live-data-zero-sync":
         data[a:b, -1] = 0
-    ap = np2.make_session(root, "NP2.4", sites, data)
+    # the sampling rate as the metadata carry it: nominal, or calibrated a little above / below (imSampRate), the duration written accordingly
+    fs = (30000, 30000.268421, 29999.757983)[PATTERNS.index(pat) % 3]
+    ap = np2.make_session(root, "NP2.4", sites, data, fs=fs)
     orig_sha = np2.sha1(ap)
     orig_meta = spikeglx.read_meta_data(ap.with_suffix(".meta"))
     seen = {}
-    ctx = "recording of %d samples with pattern %s (post_check=%s, window 600)" % (ns, pat, post_check)
+    ctx = "recording of %d samples at %r Hz with pattern %s (post_check=%s, window 600)" % (ns, fs, pat, post_check)
     try:
         status, conv = np2.convert(ap, nwindow=600, post_check=post_check)
         np2.release(conv)
